@@ -39,6 +39,9 @@ def clean_shape(v):
         elif isinstance(v, Sym) and v.kind == "method" and v.args[1] in ("strip", "lstrip", "rstrip") and not v.args[2]:
             ops_.append(("strip",))   # removes leading / trailing whitespace only: subsumed by the removal
             v = v.args[0]
+        elif isinstance(v, Sym) and v.kind == "translate":
+            ops_.append(("translate", v.args[1], v.args[2]))
+            v = v.args[0]
         elif isinstance(v, Sym) and v.kind == "resub_count":
             ops_.append(("resub_count", v.args[0], v.args[1], v.args[3]))
             v = v.args[2]
@@ -65,7 +68,23 @@ def run(ctx, report):
     kinds = sorted(x[0] for x in ops_ if x[0] != "strip")
     if o.kind == "return" and isinstance(o.value, Sym) and o.value.kind == "call":
         raise AnalysisError(f"clean() uses an operation the evaluator does not model on symbolic text ({o.value!r}): cannot decide")
-    if o.kind != "return" or core != raw or kinds != ["resub", "upper"]:
+    if o.kind == "return" and core == raw and kinds == ["translate", "upper"]:
+        # whitespace removed through a deletion table: it must contain every whitespace character and nothing else
+        tr = next(x for x in ops_ if x[0] == "translate")
+        deleted, mapped = tr[1], tr[2]
+        import sys as _sys
+        allspace = {chr(c) for c in range(_sys.maxunicode + 1) if chr(c).isspace()}
+        r.instance({"deletion table": sorted(f"U+{ord(c):04X}" for c in deleted), "whitespace code points": len(allspace)})
+        missing = sorted(allspace - set(deleted))
+        extra = sorted(set(deleted) - allspace)
+        if mapped:
+            r.finding("clean:mapping", f"clean() maps characters {mapped!r} besides removing whitespace", clean_f.where)
+        if missing:
+            r.finding("clean:whitespace", f"the deletion table of clean() lacks {len(missing)} whitespace character(s), e.g. U+{ord(missing[0]):04X}; such a character "
+                      "survives clean() and changes the outcome", clean_f.where, witness=f"U+{ord(missing[0]):04X}")
+        if extra:
+            r.finding("clean:payload", f"clean() also deletes the non-whitespace character {extra[0]!r}", clean_f.where, witness=extra[0])
+    elif o.kind != "return" or core != raw or kinds != ["resub", "upper"]:
         r.finding("clean:shape", f"clean(raw) evaluates to {o.value!r}; expected upper-casing and one removal of the whitespace pattern applied to the raw text", clean_f.where)
     else:
         sub = next(x for x in ops_ if x[0] == "resub")
@@ -149,5 +168,42 @@ def run(ctx, report):
         if res.kind != "return" or res.value != want_f:
             r.finding("BIC.formatted", f"a BIC of length {n} is formatted as {res.value!r}; its parts separated by single spaces give {want_f!r}",
                       bic.methods["formatted"].where if "formatted" in bic.methods else bic.where, witness=text)
+    # the same on abstract texts whose positions are distinct objects: value-dependent special cases show up as extra paths
+    from ..values import AStr, CharSet, ASCII_DIGITS, ASCII_UPPER
+    r = report.rule("R10-format-abstract", floor=10, what="formatted on abstract texts (any letters / digits): every path yields the parts in order, single separators")
+    for cls, lengths in ((iban, list(range(0, 41, 3)) + [22, 34]), (bic, [8, 11])):
+        for n in lengths:
+            tags = [CharSet(ASCII_DIGITS + ASCII_UPPER) for _ in range(n)]
+            it4 = facts.interp()
+
+            def thunk():
+                obj = Obj(cls, strval=AStr(tags) if n else "")
+                return it4.getattr(obj, "formatted")
+
+            try:
+                outs = [x for x in it4.explore(thunk, max_paths=500) if x.kind != "infeasible"]
+            except (CannotEvaluate, PathLimit) as e:
+                raise AnalysisError(f"cannot evaluate {cls.short}.formatted on an abstract text: {e}")
+            if cls is iban:
+                groups = [tags[i:i + 4] for i in range(0, n, 4)]
+            else:
+                groups = [tags[0:4], tags[4:6], tags[6:8]] + ([tags[8:11]] if n == 11 else [])
+            want = []
+            for gi, g in enumerate(groups):
+                if gi:
+                    want.append(" ")
+                want.extend(g)
+            r.instance({"class": cls.short, "length": n, "paths": len(outs)} if n in (8, 11, 22) else None)
+            for x in outs:
+                got = x.value
+                seq = list(got.pos) if isinstance(got, AStr) else (list(got) if isinstance(got, str) else None)
+                ok = x.kind == "return" and seq is not None and len(seq) == len(want) and all(a is b or a == b == " " for a, b in zip(seq, want))
+                if not ok:
+                    shown = f"raises {x.value.name}" if x.kind == "raise" else f"a text of {len(seq) if seq is not None else '?'} characters"
+                    cond = "; ".join(f"{ev['left']!r} {ev['op']} {ev['right']!r}" for ev in x.events if ev["kind"] == "compare" and isinstance(ev.get("right"), str) and ev["right"])[:200]
+                    r.finding(f"{cls.short}.formatted:value-dependent", f"{cls.short}.formatted of a {n}-character text can yield {shown} instead of its {len(groups)} parts joined by single "
+                              f"spaces ({len(want)} characters) — on the path taken when {cond or 'a value-dependent condition holds'}",
+                              cls.methods["formatted"].where if "formatted" in cls.methods else cls.where, witness=cond)
+                    break
     report.not_decided += ["that str.upper() maps no character to whitespace or to an ASCII lower-case letter (library fact, relied on by the clean universe)"]
     report.assumptions += ["formatted is parametric in the characters (it only slices and joins): one tagged string per length decides all strings of that length"]
